@@ -118,7 +118,7 @@ func (ul *Upstreams) openStream(session *smux.Session, subProtocol string) (stre
 		return nil, sessionLost{err}
 	}
 
-	stream := streams.NewNamedStream(conn, session.RemoteAddr().String())
+	stream := streams.NewNamedStream(streams.NewDrainedStream(conn), session.RemoteAddr().String())
 	err = ms.SelectProtoOrFail(fmt.Sprintf("/%s", subProtocol), stream)
 	if err != nil {
 		if e := streams.LogClose(stream); e != nil {
